@@ -41,9 +41,14 @@ Theorem C06_zero_divisor : forall l r a b lk rk, kind_of (classify l) = Some lk 
 Proof. exact zero_divisor. Qed.
 Theorem C06_pre1900_is_NUM : forall n, (num_q n < 0)%Q -> parse_num n = Ret (VErr ENUM).
 Proof. exact pre1900_is_NUM. Qed.
-Theorem C06_nonnumeric_text_is_VALUE : forall op s v, 0 <= op <= 3 ->
+Theorem C06_nonnumeric_text_is_VALUE : forall op s v, 0 <= op <= 3 -> text_number s = None ->
   arith_scalar op (VText s) v = Ret (VErr EVALUE) /\ arith_scalar op v (VText s) = Ret (VErr EVALUE).
 Proof. exact nonnumeric_text_is_VALUE. Qed.
+(* text spelling a number acts as that number (plain decimals: [+-]digits[.digits]; a digit string is its integer) *)
+Theorem C06_numeric_text : forall s n, text_number s = Some n -> classify (VText s) = OpNum n /\ opnum (classify (VText s)) = Some n.
+Proof. exact numeric_text_value. Qed.
+Theorem C06_integer_text : forall s, s <> [] -> all_digits_z s = true -> text_number s = Some (NI (digits_value s)).
+Proof. exact integer_text_value. Qed.
 
 (* + and * are commutative (scalars) *)
 Theorem C06_plus_mult_commutative : forall op l r, op = 0 \/ op = 2 -> arith_scalar op l r = arith_scalar op r l.
